@@ -34,6 +34,7 @@ type schedAct struct {
 type schedInput struct {
 	OnDisk bool       `json:"on_disk"`
 	Acts   []schedAct `json:"acts"`
+	Named  bool       `json:"named,omitempty"` // writers and feeds work on the named collection s1.c1; the default collection is a bystander
 	ViaBucket bool    `json:"via_bucket,omitempty"` // feeds are started through Bucket.StartDCPFeed with Scopes naming the collection
 }
 
@@ -245,6 +246,15 @@ func execSched(in schedInput, scratch string) (Case, error) {
 		return c, err
 	}
 	col := b.DefaultDataStore().(*rosmar.Collection)
+	scopes := map[string][]string{"_default": {"_default"}}
+	if in.Named {
+		ds, err := b.NamedDataStore(dsName("s1.c1"))
+		if err != nil {
+			return c, err
+		}
+		col = ds.(*rosmar.Collection)
+		scopes = map[string][]string{"s1": {"c1"}}
+	}
 	var dmu sync.Mutex
 	delivered := map[int][]any{} // by feed name
 	ncalls := map[int]int{}
@@ -313,7 +323,7 @@ func execSched(in schedInput, scratch string) (Case, error) {
 				fargs := sgbucket.FeedArguments{ID: fid, Backfill: backfill, CheckpointPrefix: "cp", Terminator: r.term, DoneChan: r.done}
 				start := col.StartDCPFeed
 				if in.ViaBucket {
-					fargs.Scopes = map[string][]string{"_default": {"_default"}}
+					fargs.Scopes = scopes
 					start = b.StartDCPFeed
 				}
 				r.started <- start(ctxBg, fargs,
@@ -490,7 +500,7 @@ func schedKey(k string) string {
 // generate a valid action list; the generator mirrors coq/Feed.v far enough to know queue lengths, so
 // that Deliver is only issued on a non-empty queue and Stop knows whether an event is parked
 func genSched(r *rand.Rand) schedInput {
-	in := schedInput{OnDisk: r.Intn(3) == 0, ViaBucket: r.Intn(2) == 0}
+	in := schedInput{OnDisk: r.Intn(3) == 0, ViaBucket: r.Intn(2) == 0, Named: r.Intn(2) == 0}
 	nw := 2 + r.Intn(3)
 	names := 1 + r.Intn(2)
 	type run struct {
